@@ -126,6 +126,21 @@ def _wrap(args):
                 {"work_item": repr(item)[:3000]},
                 "unexpected %s from %s:%d (%s): %s" % (type(e).__name__, os.path.basename(last.filename), last.lineno, last.name, str(e)[:300])))
             return ("ok", part)
+        if isinstance(e, Exception) and not isinstance(e, (MemoryError, HarnessError)):
+            # The step ran into a state its own code has no answer for (an index error on a result of unexpected
+            # shape, a file h5py cannot open, the reference model refusing an overwrite ...).  On the unchanged
+            # tree no item does this; when one does, the library behaved in a way the harness' model of it rules
+            # out, which is what the check is there to report.  Deliberate HarnessError stays fatal (exit 2).
+            part = new_part()
+            part["evaluations"] = 1
+            last = tb[-1] if tb else None
+            part["violations"].append(Violation(
+                {"class": "unexpected_library_behaviour_broke_check_step", "exc": type(e).__name__,
+                 "where": "%s:%s" % (os.path.basename(last.filename), last.name) if last else "?"},
+                {"work_item": repr(item)[:3000]},
+                "%s at %s:%s (%s): %s" % (type(e).__name__, os.path.basename(last.filename) if last else "?", last.lineno if last else "?",
+                                          last.name if last else "?", str(e)[:300])))
+            return ("ok", part)
         return ("err", traceback.format_exc(), repr(item)[:2000])
 
 
@@ -192,7 +207,13 @@ def pmap(func, items, chunksize=None, nproc=None, isolate=True):
     nproc = nproc or NPROC
     scratch_root()
     if nproc <= 1 or len(items) == 1:
-        return [func(it) for it in items]
+        out = []
+        for it in items:
+            r = _wrap((func, it))
+            if r[0] == "err":
+                raise HarnessError("work item failed on %s:\n%s" % (r[2], r[1]))
+            out.append(r[1])
+        return out
     ctx = multiprocessing.get_context("fork")
     results = [None] * len(items)
     pending = set(range(len(items)))
